@@ -3,7 +3,9 @@ package network
 import (
 	"encoding/json"
 	"fmt"
+	"math/rand/v2"
 	"strings"
+	"time"
 
 	"gonum.org/v1/gonum/graph"
 	"gonum.org/v1/gonum/graph/community"
@@ -23,14 +25,72 @@ type qmRec struct {
 	Q [2][2]int64 `json:"q"` // exact per-layer score
 }
 
+// qmContract: QMultiplex must panic iff some edge weight times its layer weight is negative.
+type qmContract struct {
+	W     [2]int64 `json:"w"`
+	Neg2  bool     `json:"neg2"` // layer 2 is built with negated weights
+	Panic bool     `json:"panic"`
+}
+
+// qmLengths: vector lengths handed to QMultiplex / ModularizeMultiplex (0 = nil) on a 2-layer graph.
+type qmLengths struct {
+	NW    int  `json:"nw"`
+	NG    int  `json:"ng"`
+	Panic bool `json:"panic"`
+}
+
+// qmNodeSet: the node set of a second layer relative to the first, and whether New*Layers must object.
+type qmNodeSet struct {
+	Extra int  `json:"extra"`
+	Drop  int  `json:"drop"`
+	Err   bool `json:"err"`
+}
+
+func ones(n int) []float64 {
+	if n == 0 {
+		return nil
+	}
+	v := make([]float64, n)
+	for i := range v {
+		v[i] = 1
+	}
+	return v
+}
+
+func copiesOf(dir bool, g graph.Graph, k int) (community.Multiplex, error) {
+	if dir {
+		gs := make([]graph.Directed, k)
+		for i := range gs {
+			gs[i] = g.(graph.Directed)
+		}
+		return community.NewDirectedLayers(gs...)
+	}
+	gs := make([]graph.Undirected, k)
+	for i := range gs {
+		gs[i] = g.(graph.Undirected)
+	}
+	return community.NewUndirectedLayers(gs...)
+}
+
 type qmCase struct {
-	K   string     `json:"k"`
-	N   int        `json:"n"`
-	Dir bool       `json:"dir"`
-	Wtd bool       `json:"wtd"`
-	L1  [][3]int64 `json:"l1"`
-	L2  [][3]int64 `json:"l2"`
-	Qs  []qmRec    `json:"qs"`
+	K        string       `json:"k"`
+	N        int          `json:"n"`
+	Dir      bool         `json:"dir"`
+	Wtd      bool         `json:"wtd"`
+	L1       [][3]int64   `json:"l1"`
+	L2       [][3]int64   `json:"l2"`
+	Qs       []qmRec      `json:"qs"`
+	Contract []qmContract `json:"contract"`
+	Lengths  []qmLengths  `json:"lengths"`
+	NodeSets []qmNodeSet  `json:"nodesets"`
+	Depths   []int        `json:"depths"`
+}
+
+func newLayers(dir bool, g1, g2 graph.Graph) (community.Multiplex, error) {
+	if dir {
+		return community.NewDirectedLayers(g1.(graph.Directed), g2.(graph.Directed))
+	}
+	return community.NewUndirectedLayers(g1.(graph.Undirected), g2.(graph.Undirected))
 }
 
 // replayQM: community.QMultiplex on every partition x layer weights x
@@ -64,17 +124,81 @@ func replayQM(in *core.Lines, args []string, seed int64, sum *core.Summary) erro
 			b1 := &builder{c: &netCase{N: c.N, Dir: c.Dir, Wtd: c.Wtd, Edges: c.L1}, ids: ids}
 			b2 := &builder{c: &netCase{N: c.N, Dir: c.Dir, Wtd: c.Wtd, Edges: c.L2}, ids: ids}
 			g1, g2 := b1.build(wt), b2.build(wt)
-			var mg community.Multiplex
-			var err error
-			if c.Dir {
-				mg, err = community.NewDirectedLayers(g1.(graph.Directed), g2.(graph.Directed))
-			} else {
-				mg, err = community.NewUndirectedLayers(g1.(graph.Undirected), g2.(graph.Undirected))
+			mg, err := newLayers(c.Dir, g1, g2)
+			// layer 2 with every weight negated, for a negative layer weight (an unweighted
+			// container has unit weights whatever the sign of the layer weight)
+			mgNeg := mg
+			if wt && err == nil {
+				b2n := &builder{c: b2.c, ids: ids, neg: true}
+				mgNeg, err = newLayers(c.Dir, g1, b2n.build(true))
 			}
 			kind := strings.TrimPrefix(fmt.Sprintf("%T", g1), "*")
 			if err != nil {
 				sum.Fail("community:NewLayers:error", fmt.Sprintf("[%s] %v for two layers on the same node set %v", kind, err, ids), raw)
 				continue
+			}
+			// argument lengths: every combination the documentation does not allow must be refused
+			for _, ln := range c.Lengths {
+				ws, gs := ones(ln.NW), ones(ln.NG)
+				o := core.Call(func() { community.QMultiplex(mg, nil, ws, gs) })
+				sum.Count("multiplex_length_contract_calls", 1)
+				if o.Panicked != ln.Panic {
+					sum.Fail("community:QMultiplex:length-contract", fmt.Sprintf("[%s] 2 layers, len(weights)=%d len(resolutions)=%d (0 = nil): panic expected %v, got %v %s", kind, ln.NW, ln.NG, ln.Panic, o.Panicked, o.Text), raw)
+				}
+				if ln.Panic {
+					o := core.CallTimeout(20*time.Second, func() { community.ModularizeMultiplex(mg, ws, gs, false, rand.NewPCG(uint64(seed), 3)) })
+					sum.Count("multiplex_length_contract_calls", 1)
+					if !o.Panicked {
+						sum.Fail("community:ModularizeMultiplex:length-contract", fmt.Sprintf("[%s] 2 layers, len(weights)=%d len(resolutions)=%d (0 = nil) was not refused %s", kind, ln.NW, ln.NG, o.Text), raw)
+					}
+				}
+			}
+			// layers must be on the same node ids; k copies of one layer have depth k
+			for _, ns := range c.NodeSets {
+				var ids2 []int64
+				for i := ns.Drop; i < c.N; i++ {
+					ids2 = append(ids2, ids[i])
+				}
+				for j := 0; j < ns.Extra; j++ {
+					ids2 = append(ids2, int64(900+j))
+				}
+				gx := (&builder{c: &netCase{N: len(ids2), Dir: c.Dir, Wtd: c.Wtd}, ids: ids2}).build(wt)
+				var e2 error
+				o := core.Call(func() { _, e2 = newLayers(c.Dir, g1, gx) })
+				sum.Count("newlayers_calls", 1)
+				if o.Panicked || (e2 != nil) != ns.Err {
+					sum.Fail("community:NewLayers:id-match", fmt.Sprintf("[%s] first layer on ids %v, second on %v: error expected %v, got %v %s", kind, ids, ids2, ns.Err, e2, o.Text), raw)
+				}
+			}
+			for _, k := range c.Depths {
+				var m community.Multiplex
+				var e2 error
+				depth, nn := -1, -1
+				o := core.Call(func() {
+					m, e2 = copiesOf(c.Dir, g1, k)
+					depth = m.Depth()
+					if it := m.Nodes(); it != nil {
+						nn = len(graph.NodesOf(it))
+					}
+				})
+				sum.Count("newlayers_calls", 1)
+				if o.Panicked || e2 != nil || depth != k || (k > 0 && nn != c.N) {
+					sum.Fail("community:NewLayers:depth", fmt.Sprintf("[%s] %d copies of one layer on %d nodes: err=%v Depth()=%d, %d nodes %s", kind, k, c.N, e2, depth, nn, o.Text), raw)
+				}
+			}
+			if wt {
+				for _, ct := range c.Contract {
+					m := mg
+					if ct.Neg2 {
+						m = mgNeg
+					}
+					ws := []float64{float64(ct.W[0]), float64(ct.W[1])}
+					o := core.Call(func() { community.QMultiplex(m, nil, ws, nil) })
+					sum.Count("qmultiplex_sign_contract_calls", 1)
+					if o.Panicked != ct.Panic || o.Runtime {
+						sum.Fail("community:QMultiplex:sign-contract", fmt.Sprintf("[%s] layer weights %v, layer 2 weights negated=%v: panic expected %v, got %v %s; l1=%v l2=%v", kind, ws, ct.Neg2, ct.Panic, o.Panicked, o.Text, c.L1, c.L2), raw)
+					}
+				}
 			}
 			for _, q := range c.Qs {
 				byLabel := map[int64][]graph.Node{}
@@ -117,9 +241,14 @@ func replayQM(in *core.Lines, args []string, seed int64, sum *core.Summary) erro
 				if single {
 					forms = append(forms, form{"nil-communities", ws, gs, nil})
 				}
+				use := mg
+				if q.W[1] < 0 {
+					use = mgNeg
+					sum.Count("qmultiplex_negative_layer_weight_cases", 1)
+				}
 				for _, f := range forms {
 					var got []float64
-					o := core.Call(func() { got = community.QMultiplex(mg, f.comm, f.w, f.g) })
+					o := core.Call(func() { got = community.QMultiplex(use, f.comm, f.w, f.g) })
 					sum.Count("qmultiplex_calls", 1)
 					if o.Panicked {
 						sum.Fail("community:QMultiplex:panic", fmt.Sprintf("[%s/%s] %s; l1=%v l2=%v labels=%v w=%v g=%v", kind, f.name, o.Text, c.L1, c.L2, q.C, f.w, f.g), raw)
